@@ -123,18 +123,20 @@ Lemma expand_env_tok_den_noeq W noeq ps tg :
   expand_env_tok W (tg, render_pieces ps) = (tg, den_pieces W ps).
 Proof.
   intros Hwf Hl Hsq Hbq.
-  assert (E : (if env_in_token (render_pieces ps)
+  assert (E : forall q, (if env_in_tagged_token (render_pieces ps) q
                then (tg, expand_env_once W (render_pieces ps))
                else (tg, render_pieces ps)) = (tg, den_pieces W ps)).
-  { destruct (Nat.eq_dec (count_refs ps) 0) as [Hc|Hc].
+  { intros q. destruct (Nat.eq_dec (count_refs ps) 0) as [Hc|Hc].
     - destruct (render_no_refs W ps Hwf Hc) as [_ Hden].
-      destruct (env_in_token (render_pieces ps)).
+      destruct (env_in_tagged_token (render_pieces ps) q).
       + rewrite (once_is_den W ps Hwf). reflexivity.
       + rewrite Hden. reflexivity.
-    - rewrite (gate_true noeq ps Hwf Hl Hc).
-      rewrite (once_is_den W _ Hwf). reflexivity. }
+    - pose proof (gate_true noeq ps Hwf Hl Hc) as Hg.
+      assert (Hq : env_in_tagged_token (render_pieces ps) q = true).
+      { destruct q; [apply tagged_gate_mono; exact Hg | exact Hg]. }
+      rewrite Hq, (once_is_den W _ Hwf). reflexivity. }
   unfold expand_env_tok. cbn [fst snd].
-  destruct tg; try contradiction; exact E.
+  destruct tg; try contradiction; apply E.
 Qed.
 
 Theorem expand_env_tok_den : forall W ps tg,
@@ -143,6 +145,145 @@ Theorem expand_env_tok_den : forall W ps tg,
 Proof.
   intros W ps tg Hwf Hg Hsq Hbq. unfold gate_ok in Hg.
   apply orb_true_iff in Hg as [Hg|Hg]; eapply expand_env_tok_den_noeq; eauto.
+Qed.
+
+(* ================================================================== 2b: double-quoted words (since 8dc686a) *)
+(** inside double quotes the alias-definition exemption is skipped: the expansion is the reference denotation on a
+    larger domain than [gate_ok] (a single quote among the literals is harmless: [gate_ok_dq]); the
+    command-substitution exemptions still apply there. *)
+Lemma sub_exempt_off t :
+  ~ In 40 t -> (~ In 61 t \/ ~ In 96 t) ->
+  rx_search rx_env_sub1 t || rx_search rx_env_sub2 t || rx_search rx_env_sub3 t = false.
+Proof.
+  intros H40 H.
+  assert (S1 : rx_search rx_env_sub1 t = false).
+  { destruct (rx_search rx_env_sub1 t) eqn:E; [exfalso|reflexivity].
+    pose proof (rx_search_requires 61 rx_env_sub1 t eq_refl E).
+    pose proof (rx_search_requires 96 rx_env_sub1 t eq_refl E). tauto. }
+  assert (S2 : rx_search rx_env_sub2 t = false).
+  { destruct (rx_search rx_env_sub2 t) eqn:E; [exfalso|reflexivity].
+    pose proof (rx_search_requires 40 rx_env_sub2 t eq_refl E). tauto. }
+  assert (S3 : rx_search rx_env_sub3 t = false).
+  { destruct (rx_search rx_env_sub3 t) eqn:E; [exfalso|reflexivity].
+    pose proof (rx_search_requires 40 rx_env_sub3 t eq_refl E). tauto. }
+  rewrite S1, S2, S3. reflexivity.
+Qed.
+
+Lemma tagged_gate_true_q t :
+  rx_search rx_env_special t = true \/ rx_search rx_env_name t = true ->
+  ~ In 40 t -> (~ In 61 t \/ ~ In 96 t) ->
+  env_in_tagged_token t true = true.
+Proof.
+  intros H H40 Hx. pose proof (sub_exempt_off t H40 Hx) as E1.
+  unfold env_in_tagged_token. rewrite E1.
+  destruct (rx_search rx_env_special t); [reflexivity|].
+  destruct H as [H|H]; [discriminate|]. rewrite H. reflexivity.
+Qed.
+
+(** the old domain is inside the new one *)
+Lemma okg_okq noeq c : okg noeq c = true -> okq noeq c = true.
+Proof.
+  unfold okg, okq. destruct noeq; [auto|].
+  destruct (negb (c =? 40)), (negb (c =? 96)); cbn; auto.
+Qed.
+
+Lemma lits_okg_okq noeq ps : lits_okg noeq ps = true -> lits_okq noeq ps = true.
+Proof.
+  unfold lits_okg, lits_okq. rewrite !forallb_forall. intros H p Hp. specialize (H p Hp).
+  destruct p; [apply okg_okq; exact H | reflexivity].
+Qed.
+
+Lemma gate_ok_dq_of_gate_ok ps : gate_ok ps = true -> gate_ok_dq ps = true.
+Proof.
+  unfold gate_ok, gate_ok_dq. rewrite !orb_true_iff.
+  intros [H|H]; [left|right]; apply lits_okg_okq; exact H.
+Qed.
+
+Lemma notin_render_q noeq (c : char) ps :
+  wf_pieces ps = true -> lits_okq noeq ps = true ->
+  okq noeq c = false -> is_alnum_us c = false ->
+  c <> 36 -> c <> 63 -> c <> 123 -> c <> 125 ->
+  ~ In c (render_pieces ps).
+Proof.
+  intros Hwf Hl Hok Ha H1 H2 H3 H4 Hin.
+  destruct (in_render c ps Hwf Hin) as [H|[H|[H|[H|[H|H]]]]]; try congruence.
+  unfold lits_okq in Hl. rewrite forallb_forall in Hl. apply Hl in H. congruence.
+Qed.
+
+Lemma render_clean_q noeq ps :
+  wf_pieces ps = true -> lits_okq noeq ps = true ->
+  ~ In 40 (render_pieces ps) /\
+  (~ In 61 (render_pieces ps) \/ ~ In 96 (render_pieces ps)).
+Proof.
+  intros Hwf Hl. split.
+  - apply (notin_render_q noeq); auto; try discriminate; destruct noeq; reflexivity.
+  - destruct noeq.
+    + left. apply (notin_render_q true); auto; try discriminate; reflexivity.
+    + right. apply (notin_render_q false); auto; try discriminate; reflexivity.
+Qed.
+
+(** a rendering that holds a reference matches the special or the name pattern *)
+Lemma ref_search a br k b :
+  wf_pieces (a ++ PRef br k :: b) = true ->
+  rx_search rx_env_special (render_pieces (a ++ PRef br k :: b)) = true \/
+  rx_search rx_env_name (render_pieces (a ++ PRef br k :: b)) = true.
+Proof.
+  intros Hwf.
+  pose proof (wf_ref_key _ _ _ (wf_app_r _ _ Hwf)) as Hk.
+  rewrite render_app.
+  destruct (wf_key_cases k Hk) as [H|[-> | ->]].
+  - right. destruct k as [|n r]; [cbn in H; discriminate|].
+    cbn [is_name] in H. apply andb_true_iff in H as [H _].
+    destruct br.
+    + rewrite render_br. cbn [app]. apply name_search_br. exact H.
+    + rewrite render_ub. cbn [app]. apply name_search_ub. exact H.
+  - left. destruct br.
+    + rewrite render_br. cbn [app]. apply special_search_br. auto.
+    + rewrite render_ub. cbn [app]. apply special_search_ub. auto.
+  - left. destruct br.
+    + rewrite render_br. cbn [app]. apply special_search_br. auto.
+    + rewrite render_ub. cbn [app]. apply special_search_ub. auto.
+Qed.
+
+Theorem tagged_gate_true_dq : forall noeq ps,
+  wf_pieces ps = true -> lits_okq noeq ps = true -> count_refs ps <> 0%nat ->
+  env_in_tagged_token (render_pieces ps) true = true.
+Proof.
+  intros noeq ps Hwf Hl Hc.
+  destruct (render_clean_q noeq ps Hwf Hl) as [H40 Hx].
+  apply tagged_gate_true_q; [|exact H40|exact Hx].
+  destruct (count_pos_split ps Hc) as (a & br & k & b & ->).
+  apply ref_search. exact Hwf.
+Qed.
+
+Lemma tagged_gate_no_dollar t q : ~ In 36 t -> env_in_tagged_token t q = false.
+Proof.
+  intros H. unfold env_in_tagged_token.
+  destruct (rx_search rx_env_special t) eqn:E1.
+  { exfalso. apply H. apply (rx_search_requires 36 rx_env_special t); [reflexivity | exact E1]. }
+  destruct (rx_search rx_env_name t) eqn:E2.
+  { exfalso. apply H. apply (rx_search_requires 36 rx_env_name t); [reflexivity | exact E2]. }
+  reflexivity.
+Qed.
+
+Lemma expand_env_tok_den_dq_noeq W noeq ps :
+  wf_pieces ps = true -> lits_okq noeq ps = true ->
+  expand_env_tok W (TDq, render_pieces ps) = (TDq, den_pieces W ps).
+Proof.
+  intros Hwf Hl. unfold expand_env_tok. cbn [fst snd tag_eqb].
+  destruct (Nat.eq_dec (count_refs ps) 0) as [Hc|Hc].
+  - destruct (render_no_refs W ps Hwf Hc) as [Hnd Hden].
+    rewrite (tagged_gate_no_dollar _ true Hnd). rewrite Hden. reflexivity.
+  - rewrite (tagged_gate_true_dq noeq ps Hwf Hl Hc).
+    rewrite (once_is_den W ps Hwf). reflexivity.
+Qed.
+
+Theorem expand_env_tok_den_dq : forall W ps,
+  wf_pieces ps = true -> gate_ok_dq ps = true ->
+  expand_env_tok W (TDq, render_pieces ps) = (TDq, den_pieces W ps).
+Proof.
+  intros W ps Hwf Hg. unfold gate_ok_dq in Hg.
+  apply orb_true_iff in Hg as [Hg|Hg]; eapply expand_env_tok_den_dq_noeq; eauto.
 Qed.
 
 (* ================================================================== 3: a whole line *)
@@ -171,12 +312,26 @@ Proof.
 Qed.
 
 (* ================================================================== 4: examples *)
-(** the remaining exemption, for every world: the double-quoted token x='$A' is left as it is *)
-Example gate_exempts_dq : forall W,
-  expand_env_tok W (TDq, [120; 61; 39; 36; 65; 39]) = (TDq, [120; 61; 39; 36; 65; 39]).
+(** the remaining exemption, for every world: the UNTAGGED token x='$A' is left as it is *)
+Example gate_exempts_untagged : forall W,
+  expand_env_tok W (TNone, [120; 61; 39; 36; 65; 39]) = (TNone, [120; 61; 39; 36; 65; 39]).
 Proof.
-  intros W. unfold expand_env_tok; cbn [fst snd].
-  replace (env_in_token [120; 61; 39; 36; 65; 39]) with false by (vm_compute; reflexivity).
+  intros W. unfold expand_env_tok; cbn [fst snd tag_eqb].
+  replace (env_in_tagged_token [120; 61; 39; 36; 65; 39] false) with false by (vm_compute; reflexivity).
+  reflexivity.
+Qed.
+
+(** since 8dc686a the same text inside double quotes is expanded *)
+Example gate_dq_expands :
+  expand_env_tok (world_of [([65], [118])] []) (TDq, [120; 61; 39; 36; 65; 39]) = (TDq, [120; 61; 39; 118; 39]).
+Proof. vm_compute. reflexivity. Qed.
+
+(** the command-substitution exemptions still apply inside double quotes: "$(echo $A)" *)
+Example gate_dq_subst_kept : forall W,
+  expand_env_tok W (TDq, [36; 40; 101; 99; 104; 111; 32; 36; 65; 41]) = (TDq, [36; 40; 101; 99; 104; 111; 32; 36; 65; 41]).
+Proof.
+  intros W. unfold expand_env_tok; cbn [fst snd tag_eqb].
+  replace (env_in_tagged_token [36; 40; 101; 99; 104; 111; 32; 36; 65; 41] true) with false by (vm_compute; reflexivity).
   reflexivity.
 Qed.
 
@@ -209,4 +364,11 @@ Print Assumptions once_is_den.
 Print Assumptions gate_true.
 Print Assumptions expand_env_tok_den.
 Print Assumptions expand_env_line.
-Print Assumptions gate_exempts_dq.
+Print Assumptions sub_exempt_off.
+Print Assumptions tagged_gate_no_dollar.
+Print Assumptions gate_ok_dq_of_gate_ok.
+Print Assumptions tagged_gate_true_dq.
+Print Assumptions expand_env_tok_den_dq.
+Print Assumptions gate_exempts_untagged.
+Print Assumptions gate_dq_expands.
+Print Assumptions gate_dq_subst_kept.
